@@ -32,6 +32,9 @@ where
     fn apply_n(v: &mut Self, op: <Self as CmRDT>::Op) {
         v.apply(op)
     }
+    /// canonical rendering of validation errors, built from their fields
+    fn render_op_err(e: &<Self as CmRDT>::Validation) -> String;
+    fn render_merge_err(e: &<Self as CvRDT>::Validation) -> String;
 }
 
 impl Nested for Orswot<u8, u8> {
@@ -43,7 +46,15 @@ impl Nested for Orswot<u8, u8> {
     }
     fn nested_edit(v: &Self, ctx: AddCtx<u8>, e: EditArgs, _aux: &mut Aux) -> (<Self as CmRDT>::Op, String) {
         let m = idx(e.a, NMEMBERS) as u8;
-        match set_edit_kind(e.kind, true) {
+        let mut kind = set_edit_kind(e.kind, true);
+        if e.d % 4 != 0 {
+            if kind == 2 && !v.contains(&m).val {
+                kind = 0;
+            } else if kind == 3 && v.read().val.is_empty() {
+                kind = 1;
+            }
+        }
+        match kind {
             0 => (v.add(m, ctx), format!("set.add({m}, ctx)")),
             1 => {
                 let ms = subset(e.b, NMEMBERS);
@@ -68,6 +79,12 @@ impl Nested for Orswot<u8, u8> {
     fn value(v: &Self) -> Value {
         crate::subject::orswot::nested_set_value(v)
     }
+    fn render_op_err(e: &<Self as CmRDT>::Validation) -> String {
+        render_dot_range(e)
+    }
+    fn render_merge_err(e: &<Self as CvRDT>::Validation) -> String {
+        crate::subject::orswot::render_set_merge_err(e)
+    }
 }
 
 impl Nested for MVReg<u16, u8> {
@@ -89,6 +106,12 @@ impl Nested for MVReg<u16, u8> {
         vals.sort();
         json!(vals)
     }
+    fn render_op_err(e: &<Self as CmRDT>::Validation) -> String {
+        match *e {}
+    }
+    fn render_merge_err(e: &<Self as CvRDT>::Validation) -> String {
+        match *e {}
+    }
 }
 
 impl<N: Nested> Nested for Map<u8, N, u8>
@@ -104,7 +127,8 @@ where
     }
     fn nested_edit(v: &Self, ctx: AddCtx<u8>, e: EditArgs, aux: &mut Aux) -> (<Self as CmRDT>::Op, String) {
         let k = idx(e.a, NKEYS) as u8;
-        if idx(e.kind, 100) < 72 {
+        let absent = v.get(&k).val.is_none();
+        if idx(e.kind, 100) < 72 || (absent && e.d % 4 != 0) {
             let mut call = String::new();
             let op = v.update(k, ctx, |n, c| {
                 let (op, cl) = N::nested_edit(n, c, e.shift(), aux);
@@ -126,6 +150,34 @@ where
             m.insert(k.to_string(), N::value(n));
         }
         Value::Object(m)
+    }
+    fn render_op_err(e: &<Self as CmRDT>::Validation) -> String {
+        render_map_op_err::<N>(e)
+    }
+    fn render_merge_err(e: &<Self as CvRDT>::Validation) -> String {
+        render_map_merge_err::<N>(e)
+    }
+}
+
+pub fn render_map_op_err<N: Nested>(e: &crdts::map::CmRDTValidation<N, u8>) -> String
+where
+    <N as CmRDT>::Op: Clone + Debug + Serialize + DeserializeOwned + PartialEq,
+    N: crdts::map::Val<u8>,
+{
+    match e {
+        crdts::map::CmRDTValidation::SourceOrder(d) => format!("SourceOrder({})", render_dot_range(d)),
+        crdts::map::CmRDTValidation::Value(v) => format!("Value({})", N::render_op_err(v)),
+    }
+}
+
+pub fn render_map_merge_err<N: Nested>(e: &crdts::map::CvRDTValidation<u8, N, u8>) -> String
+where
+    <N as CmRDT>::Op: Clone + Debug + Serialize + DeserializeOwned + PartialEq,
+    N: crdts::map::Val<u8>,
+{
+    match e {
+        crdts::map::CvRDTValidation::DoubleSpentDot { dot, our_key, their_key } => format!("DoubleSpentDot {{ dot: ({}, {}), our_key: {our_key}, their_key: {their_key} }}", dot.actor, dot.counter),
+        crdts::map::CvRDTValidation::Value(v) => format!("Value({})", N::render_merge_err(v)),
     }
 }
 
@@ -166,7 +218,8 @@ where
     }
     fn edit(s: &Self::St, actor: Option<u8>, e: EditArgs, aux: &mut Aux) -> Option<(Self::Op, Sem, String)> {
         let k = idx(e.a, KEYS) as u8;
-        let want_update = idx(e.kind, 100) < 74;
+        let absent = s.get(&k).val.is_none();
+        let want_update = idx(e.kind, 100) < 74 || (absent && e.d % 4 != 0);
         let (op, call) = if want_update && actor.is_some() {
             let a = actor?;
             let (ctx, src) = match idx(e.c, 4) {
@@ -187,6 +240,13 @@ where
         };
         let sem = map_sem::<N>(&op, actor.unwrap_or(0));
         let call = format!("{call} -> {op:?}");
+        Some((op, sem, call))
+    }
+    fn edit_stale_rm(s: &Self::St, old: &Self::St, e: EditArgs) -> Option<(Self::Op, Sem, String)> {
+        let k = idx(e.a, KEYS) as u8;
+        let op = s.rm(k, old.get(&k).derive_rm_ctx());
+        let sem = map_sem::<N>(&op, 0);
+        let call = format!("rm({k}, ctx from an EARLIER get({k}) at this replica) -> {op:?}");
         Some((op, sem, call))
     }
     fn observe(s: &Self::St) -> Obs {
@@ -266,10 +326,10 @@ where
         Some(dotstore::predict_map(&ds, &N::shape(), KEYS))
     }
     fn validate_op(s: &Self::St, op: &Self::Op) -> Result<(), String> {
-        s.validate_op(op).map_err(|e| format!("{e:?}"))
+        s.validate_op(op).map_err(|e| render_map_op_err::<N>(&e))
     }
     fn validate_merge(a: &Self::St, b: &Self::St) -> Result<(), String> {
-        a.validate_merge(b).map_err(|e| format!("{e:?}"))
+        a.validate_merge(b).map_err(|e| render_map_merge_err::<N>(&e))
     }
     fn ctx_probes(s: &Self::St, actors: &[u8]) -> Vec<CtxProbe> {
         let mut v = Vec::new();
